@@ -50,6 +50,9 @@ var Kinds = []Req{
 	{"GET", "/a"}, {"GET", "/b"}, {"GET", "/u/1"}, {"GET", "/u/2"}, {"GET", "/k/y"},
 	{"GET", "/zz/q"}, {"POST", "/a"}, {"HEAD", "/u/1"}, {"POST", "/u/1"}, {"GET", "/g/s"}, {"POST", "/k/y"}, {"GET", "/cp/7"},
 	{"GET", "/redir"}, {"GET", "/to/1"},
+	// a HEAD request for a static GET-only path; two requests whose handlers build the URL of one named route from
+	// their own parameter
+	{"HEAD", "/a"}, {"GET", "/bu/1"}, {"GET", "/bu/2"},
 }
 
 // kept holds, per request, the Copy() of the context its handler kept beyond the request
@@ -145,6 +148,13 @@ func Build(s Shape) *rux.Router {
 		kept.Store(c.Req, c.Copy())
 		c.WriteString("[CP " + c.Param("id") + "]")
 		Yield()
+	})
+	r.AddNamed("post", "/users/{uid}/posts/{pid}", main("POST"), "GET")
+	r.GET("/bu/{id}", func(c *rux.Context) {
+		Yield()
+		u := c.Router().BuildURL("post", "{uid}", c.Param("id"), "{pid}", "1"+c.Param("id"))
+		Yield()
+		c.WriteString("[BU " + u.String() + "]")
 	})
 	// a route behind the Timeout middleware whose deadline has already passed (no wall-clock dependence): the handler
 	// still runs to completion on the request's own goroutine
